@@ -268,3 +268,157 @@ theorem decodeSymT_eq (ls : List Nat) : ∀ (fuel len code : Nat) (bits : List N
       | none => exact ih _ _ _
 
 end Prefix
+
+/-! ### totality and soundness: on a complete code every bit string decodes, to a symbol whose
+    code word is the prefix consumed -/
+namespace Prefix
+
+theorem findSym_spec (p : Nat → Bool) : ∀ n s, findSym p n = some s → p s = true ∧ s < n := by
+  intro n
+  induction n with
+  | zero => intro s h; simp [findSym] at h
+  | succ n ih =>
+    intro s h
+    rw [findSym] at h
+    cases hf : findSym p n with
+    | some s' =>
+      rw [hf] at h
+      simp only [Option.some.injEq] at h
+      subst h
+      have := ih s' hf
+      exact ⟨this.1, by omega⟩
+    | none =>
+      rw [hf] at h
+      by_cases hp : p n = true
+      · simp only [hp, if_true, Option.some.injEq] at h
+        subst h; exact ⟨hp, by omega⟩
+      · simp [hp] at h
+
+/-- the `r`-th symbol of length `k` exists when `r < bl_count[k]` -/
+theorem select_rank (k : Nat) : ∀ (l : List Nat) (r : Nat), r < (l.filter (· == k)).length →
+    ∃ s, s < l.length ∧ l.getD s 0 = k ∧ ((l.take s).filter (· == k)).length = r := by
+  intro l
+  induction l with
+  | nil => intro r h; simp at h
+  | cons a l ih =>
+    intro r h
+    by_cases ha : (a == k) = true
+    · cases r with
+      | zero => exact ⟨0, by simp, by simpa using ha, by simp⟩
+      | succ r' =>
+        have h' : r' < (l.filter (· == k)).length := by
+          simp only [List.filter_cons, ha, if_true, List.length_cons] at h; omega
+        obtain ⟨s, s1, s2, s3⟩ := ih r' h'
+        refine ⟨s + 1, by simp; omega, by simpa using s2, ?_⟩
+        simp only [List.take_succ_cons, List.filter_cons, ha, if_true, List.length_cons, s3]
+    · have h' : r < (l.filter (· == k)).length := by
+        simp only [List.filter_cons, ha] at h; exact h
+      obtain ⟨s, s1, s2, s3⟩ := ih r h'
+      refine ⟨s + 1, by simp; omega, by simpa using s2, ?_⟩
+      simp only [List.take_succ_cons, List.filter_cons, ha]
+      exact s3
+
+/-- every value in the block of length-`k` code words belongs to a symbol -/
+theorem symbolOf_block (ls : List Nat) (k r : Nat) (hk : 1 ≤ k) (hr : r < blCount ls k) :
+    ∃ s, symbolOf ls k (nextCode ls k + r) = some s := by
+  obtain ⟨s, s1, s2, s3⟩ := select_rank k ls r hr
+  have hget : ls[s]? = some k := by
+    rw [List.getD_eq_getElem?_getD] at s2
+    rw [List.getElem?_eq_getElem s1] at s2 ⊢
+    simp at s2; rw [s2]
+  have hc : canonicalCode ls s = some (nextCode ls k + r) := by
+    unfold canonicalCode
+    rw [hget]
+    obtain ⟨m, rfl⟩ : ∃ m, k = m + 1 := ⟨k - 1, by omega⟩
+    simp only [s3]
+  have := symbolOf_self ls s _ hc
+  rw [s2] at this
+  exact ⟨s, this⟩
+
+/-- first value above the code words of length `k` (nothing at length 0) -/
+def blockEnd (ls : List Nat) (k : Nat) : Nat := nextCode ls k + (if k = 0 then 0 else blCount ls k)
+
+theorem nextCode_succ (ls : List Nat) (k : Nat) : nextCode ls (k + 1) = blockEnd ls k * 2 := rfl
+
+theorem blockEnd_grows (ls : List Nat) (L : Nat) (hc : blockEnd ls L = 2 ^ L) : ∀ d, 2 ^ (L + d) ≤ blockEnd ls (L + d) := by
+  intro d
+  induction d with
+  | zero => rw [Nat.add_zero, hc]; exact Nat.le_refl _
+  | succ d ih =>
+    have : blockEnd ls (L + (d + 1)) ≥ nextCode ls (L + d + 1) := by unfold blockEnd; exact Nat.le_add_right _ _
+    rw [nextCode_succ] at this
+    have e : 2 ^ (L + (d + 1)) = 2 ^ (L + d) * 2 := by rw [← Nat.add_assoc, Nat.pow_succ]
+    rw [e]
+    exact Nat.le_trans (Nat.mul_le_mul_right 2 ih) this
+
+/-- **totality**: on a complete code (the code words of the longest length end exactly at
+    `2^L`) every string of at least `L` bits starts with the code word of some symbol -/
+theorem decodeSym_total (ls : List Nat) (L : Nat) (hL : 1 ≤ L) (hc : blockEnd ls L = 2 ^ L) :
+    ∀ (fuel k c : Nat) (bits : List Nat), L ≤ k + fuel → L ≤ k + bits.length → (∀ b ∈ bits, b < 2) →
+      c < 2 ^ k → blockEnd ls k ≤ c → ∃ s rest, decodeSym ls fuel k c bits = some (s, rest) := by
+  intro fuel
+  induction fuel with
+  | zero =>
+    intro k c bits h1 _ _ hck hbe
+    obtain ⟨d, rfl⟩ : ∃ d, k = L + d := ⟨k - L, by omega⟩
+    have := blockEnd_grows ls L hc d
+    omega
+  | succ fuel ih =>
+    intro k c bits h1 h2 hb hck hbe
+    by_cases hkL : L ≤ k
+    · obtain ⟨d, rfl⟩ : ∃ d, k = L + d := ⟨k - L, by omega⟩
+      have := blockEnd_grows ls L hc d
+      omega
+    · cases bits with
+      | nil => simp at h2; omega
+      | cons b rest =>
+        rw [decodeSym]
+        have hb2 : b < 2 := hb b List.mem_cons_self
+        have hnc : nextCode ls (k + 1) ≤ 2 * c + b := by rw [nextCode_succ]; omega
+        cases hs : symbolOf ls (k + 1) (2 * c + b) with
+        | some s => exact ⟨s, rest, rfl⟩
+        | none =>
+          simp only
+          apply ih (k + 1) (2 * c + b) rest (by omega) (by simp at h2; omega)
+            (fun b' hb' => hb b' (List.mem_cons_of_mem _ hb')) (by rw [Nat.pow_succ]; omega)
+          -- not matched at length k+1: the value lies above the block
+          unfold blockEnd
+          rw [if_neg (by omega)]
+          rcases Nat.lt_or_ge (2 * c + b) (nextCode ls (k + 1) + blCount ls (k + 1)) with hlt | hge
+          · obtain ⟨s, hs'⟩ := symbolOf_block ls (k + 1) (2 * c + b - nextCode ls (k + 1)) (by omega) (by omega)
+            rw [show nextCode ls (k + 1) + (2 * c + b - nextCode ls (k + 1)) = 2 * c + b by omega] at hs'
+            rw [hs'] at hs; cases hs
+          · exact hge
+
+/-- **soundness**: whatever `decodeSym` returns is a symbol whose canonical code word, MSB first,
+    is exactly the bits consumed (after the `k` bits `c` accumulated before) -/
+theorem decodeSym_sound (ls : List Nat) : ∀ (fuel k c : Nat) (bits : List Nat) (s : Nat) (rest : List Nat),
+    decodeSym ls fuel k c bits = some (s, rest) →
+      ∃ taken, bits = taken ++ rest ∧ ls.getD s 0 = k + taken.length ∧
+        canonicalCode ls s = some (taken.foldl (fun acc b => 2 * acc + b) c) := by
+  intro fuel
+  induction fuel with
+  | zero => intro k c bits s rest h; simp [decodeSym] at h
+  | succ fuel ih =>
+    intro k c bits s rest h
+    cases bits with
+    | nil => simp [decodeSym] at h
+    | cons b tl =>
+      rw [decodeSym] at h
+      cases hs : symbolOf ls (k + 1) (2 * c + b) with
+      | some s' =>
+        rw [hs] at h
+        simp only [Option.some.injEq, Prod.mk.injEq] at h
+        obtain ⟨rfl, rfl⟩ := h
+        unfold symbolOf at hs
+        obtain ⟨hp, _⟩ := findSym_spec _ _ _ hs
+        simp only [Bool.and_eq_true, beq_iff_eq] at hp
+        exact ⟨[b], rfl, by rw [hp.1]; rfl, by rw [hp.2]; rfl⟩
+      | none =>
+        rw [hs] at h
+        simp only at h
+        obtain ⟨taken, e1, e2, e3⟩ := ih (k + 1) (2 * c + b) tl s rest h
+        refine ⟨b :: taken, by rw [e1]; rfl, by rw [e2, List.length_cons]; omega, ?_⟩
+        rw [e3]; rfl
+
+end Prefix
